@@ -1234,3 +1234,31 @@ Example transform_meshes_nonvacuous :
   (* symmetric about y = 0: no error at the centre of the image, still divided *)
   length (transform_meshes T Ti (-100, -214, 500, 214) 600 428 (0, -150, 400, 150) 400 300 0 1) = 16%nat.
 Proof. vm_compute. reflexivity. Qed.
+
+(* ================================================================== georeference of the answer (GeoTIFF) *)
+Local Open Scope Q_scope.
+
+(* Whatever extent is configured for the SRS of the request (bbox_srs) and however the request is cut down to it:
+   the georeference written into the answer is that of the requested rectangle, i.e. tie point + (i, j) * pixel
+   scale is the ground position of the corner of pixel (i, j) of the answer (the same point InfoQuery.coord names). *)
+Lemma answer_georef_is_request b0 b1 b2 b3 w h ext i j :
+  (0 < w)%Z -> (0 < h)%Z ->
+  let '(_, (tie, scale)) := wms_map_answer (b0, b1, b2, b3) w h ext in
+  qpt_eq (fst tie + inject_Z i * fst scale, snd tie - inject_Z j * snd scale)
+         (info_coord (b0, b1, b2, b3) w h (i, j)).
+Proof.
+  intros Hw Hh.
+  assert (E : snd (wms_map_answer (b0, b1, b2, b3) w h ext) = ((b0, b3), ((b2 - b0) / inject_Z w, (b3 - b1) / inject_Z h))).
+  { unfold wms_map_answer. destruct ext as [[[[e0 e1] e2] e3]|]; [|reflexivity].
+    destruct (Qle_bool e0 b0 && Qle_bool e1 b1 && Qle_bool b2 e2 && Qle_bool b3 e3); [reflexivity|].
+    destruct (bbox_position_in_image (b0, b1, b2, b3) w h (e0, e1, e2, e3)) as [[sz off] sub]. reflexivity. }
+  destruct (wms_map_answer (b0, b1, b2, b3) w h ext) as [r [tie scale]]. cbn [snd] in E. injection E as -> ->.
+  cbn [fst snd]. pose proof (info_coord_pixel_corner b0 b1 b2 b3 w h i j Hw Hh) as [Hx Hy].
+  unfold qpt_eq in *. cbn [fst snd] in *. split; [rewrite Hx|rewrite Hy]; reflexivity.
+Qed.
+
+Example answer_georef_nonvacuous :
+  (* request 300 x 200 px reaching over the extent (0, 0, 40960, 40960): rendered part and georeference *)
+  wms_map_answer (30000, 30000, 45000, 40000) 300 200 (Some (0, 0, 40960, 40960)) =
+    (((30000, 30000, 40960, 40000), (219, 200)%Z, (0, 0)%Z), ((30000, 40000), ((45000 - 30000) / 300, (40000 - 30000) / 200))).
+Proof. vm_compute. reflexivity. Qed.
